@@ -66,7 +66,10 @@ pub fn test_case(c: &Case) -> Result<CaseInfo, Fail> {
         // and processed just before the leader's internal run, which must then be a no-op.  At a
         // follower a stray run in state Validated is indistinguishable from the leader's and makes
         // the real one the duplicate - a legitimate failure, not judged.)
-        if matches!(stray, Stray::Run) && state == "LeaderScheduling" {
+        // An MPC message that names the receiver itself as sender belongs to no peer's stream:
+        // whatever the answer, it must not reach the computation.
+        let own_sender = matches!(stray, Stray::MpcMsg { from } if from == target);
+        if matches!(stray, Stray::Run) && state == "LeaderScheduling" || own_sender {
             if let Some(p) = obs.actor_panicked.iter().position(|x| *x) {
                 return Err(Fail::new(format!("C14|actor-panic|{name}"), format!("{name} injected into party {target} in state {state}: state machine of party {p} panicked (schedule results {:?})", obs.schedule)));
             }
@@ -156,6 +159,7 @@ pub fn units(tier: Tier, seed: u64) -> Vec<Unit> {
                     Stray::MpcMsg { from: n },
                     Stray::MpcMsg { from: 9 },
                     Stray::MpcMsg { from: (target + 1) % n },
+                    Stray::MpcMsg { from: target },
                 ] {
                     v.push(Unit { cfg: cfg.clone(), script: script.clone(), target, stray });
                 }
@@ -170,7 +174,7 @@ pub fn run(tier: Tier, seed: u64) -> i32 {
         return run_worker(units(tier, seed), k, of, run_unit);
     }
     let ctx = Ctx::new("C14", tier, seed, "fault_enumeration");
-    ctx.set_rule("systematic enumeration: stray command kind {duplicate schedule (same policy / different valid program / ill-typed program), validate again, run, constants with in-range and out-of-range sender, MPC message with out-of-range sender, MPC message before scheduling} x target party x every quiescent point of a normal 2- and 3-party session (several coordination orders) and after the k-th MPC message for k in {1,2,5,20,last} (the computation is held at that point by the in-process client); an error answer is demanded only where the command is invalid for the state the target was in; a stray `run` queued at a leader that is inside its own schedule call is additionally judged for 'no panic, outcome unchanged'; otherwise a case counts only where the command is invalid (state reconstructed from the history; run/constants only before validation or during execution, validate only after validation, duplicate schedule only after the first schedule); oracle: the stray call is answered with an error, no state machine panics, and the session still satisfies the complete C13 oracle (every schedule Ok, exactly one correct result per destination, actors stopped, permits back); non-trivial = applicable injection; distinct by hash of the case");
+    ctx.set_rule("systematic enumeration: stray command kind {duplicate schedule (same policy / different valid program / ill-typed program), validate again, run, constants with in-range and out-of-range sender, MPC message with out-of-range sender, MPC message before scheduling, MPC message naming the receiver itself as sender} x target party x every quiescent point of a normal 2- and 3-party session (several coordination orders) and after the k-th MPC message for k in {1,2,5,20,last} (the computation is held at that point by the in-process client); an error answer is demanded only where the command is invalid for the state the target was in; a stray `run` queued at a leader that is inside its own schedule call is additionally judged for 'no panic, outcome unchanged'; otherwise a case counts only where the command is invalid (state reconstructed from the history; run/constants only before validation or during execution, validate only after validation, duplicate schedule only after the first schedule); oracle: the stray call is answered with an error, no state machine panics, and the session still satisfies the complete C13 oracle (every schedule Ok, exactly one correct result per destination, actors stopped, permits back); non-trivial = applicable injection; distinct by hash of the case");
     let n_units = units(tier, seed).len();
     ctx.extra("work_units", json!(n_units));
     run_parent(&ctx, "C14", n_units);
